@@ -4,9 +4,10 @@ import GeomV.C04.LoopLemmas
 short-circuit condition and a nested `if`, receiver-derived fuel) is the model's fuel-free `next3`. -/
 set_option linter.unusedVariables false
 set_option linter.unusedSimpArgs false
+set_option linter.unusedSectionVars false
 namespace GeomV.C04
 open GeomV
-variable {α : Type}
+variable {α : Type} [LT α] [DecidableLT α]
 
 theorem C04_tie_MultiPolygon_Points (mp : List (List (List (Pt α)))) (i j k : Nat) :
     init (.multiPolygon mp) = .ok (.three Gen.multiPolygonPointsInit.1 Gen.multiPolygonPointsInit.2.1
